@@ -39,7 +39,7 @@ NoDup(c) == Cardinality(ToSet(c.nondust)) = Len(c.nondust) /\ Cardinality(ToSet(
 TraceInit ==
   /\ l = 1 /\ nodeOf = <<>> /\ saved = <<>> /\ everRAA = <<>> /\ projB = <<>>
   /\ fw = [adds |-> {}, downFul |-> {}, upClaimed |-> {}, settledNow |-> {}, base0 |-> <<>>, pol |-> <<>>,
-           shut |-> {}, closeFee |-> <<>>, newInfl |-> {}, crashed |-> {}, liveAtCrash |-> {}, snapKnows |-> <<>>, needSent |-> {}, owed |-> {}, settled |-> FALSE, pays |-> {}, claimedEv |-> {}, sentEv |-> {}, failEv |-> {}]
+           shut |-> {}, closeFee |-> <<>>, newInfl |-> {}, crashed |-> {}, liveAtCrash |-> {}, snapKnows |-> <<>>, needSent |-> {}, owed |-> {}, settled |-> FALSE, pays |-> {}, claimedEv |-> {}, sentEv |-> {}, failEv |-> {}, lastMgr |-> <<>>]
   /\ par = <<>> /\ cnt = <<>> /\ hs = <<>> /\ fees = <<>> /\ feeBase = <<>> /\ base = <<>>
   /\ link = <<>> /\ redo = <<>> /\ lastCS = <<>> /\ order = <<>> /\ pts = <<>> /\ mon = <<>>
   /\ ownExp = <<>>
@@ -72,7 +72,7 @@ TOpen ==
         /\ saved' = <<>> /\ projB' = <<>>
         /\ fw' = [adds |-> {}, downFul |-> {}, upClaimed |-> {}, settledNow |-> {},
                    base0 |-> [e \in E |-> IF e[2] = 1 THEN cs[ch(e[1])].bal_a_msat ELSE cs[ch(e[1])].bal_b_msat],
-                   pol |-> R.policy, shut |-> {}, closeFee |-> [c \in C |-> 0], newInfl |-> {}, crashed |-> {}, liveAtCrash |-> {}, snapKnows |-> <<>>, needSent |-> {}, owed |-> {}, settled |-> FALSE, pays |-> {}, claimedEv |-> {}, sentEv |-> {}, failEv |-> {}]
+                   pol |-> R.policy, shut |-> {}, closeFee |-> [c \in C |-> 0], newInfl |-> {}, crashed |-> {}, liveAtCrash |-> {}, snapKnows |-> <<>>, needSent |-> {}, owed |-> {}, settled |-> FALSE, pays |-> {}, claimedEv |-> {}, sentEv |-> {}, failEv |-> {}, lastMgr |-> <<>>]
 
 \* not part of the commitment protocol; `warning` / `disconnect_peer` ask the transport to drop the
 \* peer (the harness then disconnects, as PeerManager would) -- an `error` is never acceptable
@@ -207,7 +207,7 @@ TComplete == /\ IsEvent("complete") /\ UNCHANGED Aux
 TSend ==
   /\ IsEvent("send")
   /\ UNCHANGED <<cvars, nodeOf, saved, everRAA, projB>>
-  /\ fw' = IF R.result = "ok" THEN [fw EXCEPT !.pays = @ \cup {[hash |-> R.hash, payer |-> R.node, amt |-> R.amt]}] ELSE fw
+  /\ fw' = IF R.result = "ok" THEN [fw EXCEPT !.pays = @ \cup {[hash |-> R.hash, payer |-> R.node, amt |-> R.amt, snap |-> R.snap]}] ELSE fw
   /\ G1(R.usable => /\ (R.first_amt >= R.min /\ R.first_amt <= R.limit) => R.result = "ok"
                     /\ (R.first_amt > R.limit \/ R.first_amt < R.min) => R.result = "err")
 
@@ -237,6 +237,9 @@ TCrash ==
   /\ IsEvent("crash")
   /\ UNCHANGED <<nodeOf, saved, everRAA, projB>>
   /\ fw' = [fw EXCEPT !.crashed = @ \cup {R.node},
+                       !.lastMgr = [n \in DOMAIN @ \cup {R.node} |-> IF n = R.node THEN R.mgr ELSE @[n]],
+                       \* (a terminal event the user handled before the restart stays handled, whatever manager is
+                       \* restored: the library then no longer owes it -- its completion action told the monitor)
                        !.settledNow = {p \in @ : p[1] \notin EPsOf(R.node)},
                        \* an event the user refused stays owed if the manager restarted from was written after
                        \* the refusal (pending events are part of it)
@@ -305,8 +308,8 @@ TEvent ==
   /\ fw' = IF R.kind \in PersistentEvents
             THEN [fw EXCEPT !.needSent = IF R.kind = "PaymentSent" THEN @ \ {<<R.node, R.hash>>} ELSE @,
                             !.owed = {o \in @ : ~(o[1] = R.node /\ o[2] = R.kind /\ o[3] = R.hash)},
-                            !.sentEv = IF R.kind = "PaymentSent" THEN @ \cup {<<R.node, R.hash>>} ELSE @,
-                            !.failEv = IF R.kind = "PaymentFailed" THEN @ \cup {<<R.node, R.hash>>} ELSE @]
+                            !.sentEv = IF R.kind = "PaymentSent" THEN @ \cup {<<R.node, R.hash, R.snap>>} ELSE @,
+                            !.failEv = IF R.kind = "PaymentFailed" THEN @ \cup {<<R.node, R.hash, R.snap>>} ELSE @]
             ELSE IF R.kind = "PaymentClaimed" THEN [fw EXCEPT !.claimedEv = @ \cup {R.hash}]
             ELSE fw
   /\ IF CoopClose /\ ~Closed(EP(R.chan, R.node))
@@ -367,6 +370,7 @@ TScorer == IsEvent("rt_scorer") /\ Stutter
            /\ G12(R.read_ok /\ R.answers_equal /\ R.truncated_refused)   \* (byte equality is not required: hash-map order)
 
 \* ---- end of a wound-down run, per node (also for nodes all of whose channels are closed)
+HasEv(S, n, h) == \E p \in S : p[1] = n /\ p[2] = h
 TFin ==
   /\ IsEvent("fin") /\ Stutter
   \* C10: every claim the durable monitor knew at a crash was reported again as PaymentSent
@@ -379,9 +383,15 @@ TFin ==
   \* a commitment transaction are forfeited to fees when their channel closes: not judged.)
   /\ (fw.settled /\ R.node \notin fw.crashed) =>
         \A p \in {q \in fw.pays : q.payer = R.node /\ q.amt >= 10000000} :
-           /\ GE(p.hash \in fw.claimedEv => <<R.node, p.hash>> \in fw.sentEv)
-           /\ GE(<<R.node, p.hash>> \in fw.failEv => p.hash \notin fw.claimedEv)
-           /\ GE(<<R.node, p.hash>> \in fw.sentEv \cup fw.failEv)
+           /\ GE(p.hash \in fw.claimedEv => HasEv(fw.sentEv, R.node, p.hash))
+           /\ GE(HasEv(fw.failEv, R.node, p.hash) => p.hash \notin fw.claimedEv)
+           /\ GE(HasEv(fw.sentEv \cup fw.failEv, R.node, p.hash))
+  \* A payer that restarted from a manager which knows the payment reports a terminal event (again) after
+  \* the restart: pending events and the monitors' knowledge of resolved HTLCs survive (C10).  Which one is not
+  \* judged here (registered findings about stale restarts concern exactly that).
+  /\ (fw.settled /\ R.node \in fw.crashed /\ R.node \in DOMAIN fw.lastMgr) =>
+        \A p \in {q \in fw.pays : q.payer = R.node /\ q.amt >= 10000000 /\ q.snap <= fw.lastMgr[R.node]} :
+           G10(HasEv(fw.sentEv \cup fw.failEv, R.node, p.hash))
   /\ ~AnyClosed(R.node) =>
         \* C02: every preimage the node learned downstream was used upstream ...
         /\ G2(\A p \in fw.downFul : (p[1] = R.node /\ UpAdds(R.node, p[2]) # {}) => p \in fw.upClaimed)
